@@ -36,3 +36,6 @@ pub broadcast proof fn lemma_push_last<T>(s: Seq<T>, x: T)
 pub broadcast group group_push { lemma_push_keeps, lemma_push_last }
 pub assume_specification<T: core::default::Default, E> [core::result::Result::<T, E>::unwrap_or_default] (r: core::result::Result<T, E>) -> (v: T)
     ensures r matches Ok(t) ==> v == t;
+
+// ---- std functions behaviour-preserving rewrites reach for (vstd already specifies <[T]>::split_first / split_at) ----
+pub assume_specification<T> [core::mem::drop::<T>] (x: T);
